@@ -394,11 +394,27 @@ def r6_prolog_order(ctx):
     yield Ob('x12xml:x12xml.__init__ opens the root element on every path', p is None, ctx.floc(fn), '' if p is None else 'the root push can be skipped')
 
 
+def r7_writer_state_per_instance(ctx):
+    """every XML document is written by its own writer: the element stack and the other state of xmlwriter / x12xml /
+    x12xml_simple objects live on the instance.  A class-level list or dict that is mutated in place is one object
+    for all writers - a second document in the same process starts with the first one's open elements.  C18.R2
+    (shared), restricted to the XML modules."""
+    from . import c18
+    n = 0
+    for o in c18.r2_shared_state(ctx):
+        if any(o.key.startswith(m + ' ') for m in ('xmlwriter', 'x12xml', 'x12xml_simple', 'xmlx12_simple')):
+            n += 1
+            yield o
+    if n < 3:
+        raise AnalysisError('shared-state audit reached only %d objects of the XML modules' % n)
+
+
 RULES = [
     Rule('C08.R1', 'XML vocabulary agreement writer<->reader; every element id designates its own position', r1_vocabulary, floor=11000),
     Rule('C08.R2', 'content/attribute escaping: & first, <, quote char; every value passes its escape', r2_escaping, floor=9),
     Rule('C08.R3', 'segment/composite push-pop balance (post-dominance)', r3_balance, floor=4),
     Rule('C08.R4', 'same emptiness predicate on both sides; every <seg> converted in order', r4_empty_agreement, floor=3),
     Rule('C08.R5', 'loop nesting is derived from the matched node at every call; no other state between segments', r5_nesting_from_current_node, floor=3),
+    Rule('C08.R7', 'shared with C18.R2: XML writer state is per instance (no mutated class/module-level object)', r7_writer_state_per_instance, floor=3),
     Rule('C08.R6', 'DOCTYPE precedes the root element; the root is always opened', r6_prolog_order, floor=2),
 ]
